@@ -83,7 +83,9 @@ CHECKS = {
               "ticket) events recorded at the linearisation point are validated as behaviours of the model (forced and natural runs). The model "
               "also marshals the inputs (action Share: shared copies are binary64 whatever the caller passed; SerialRep: the serial loop works on "
               "the same representation): frequency vectors given as float32 and int64 are run serially and in parallel (genuine defect repaired, "
-              "fix: 77f40a0)."),
+              "fix: 77f40a0). Decide / DecideLaws: the decision table of parallel = auto / yes / no x frequencies x signal size around the 50000 "
+              "threshold x getresp x processors x maxcpu is exported and replayed (simulated processor count, requested pool size observed, worker "
+              "events through H1, result = serial)."),
         ref="4/C09",
         note=("Trusted: TLC; fork start method; visibility of RawArray writes after Pool exit; hook H1 (commit in MANIFEST.hooks) placed "
               "around the writes. A turnstile time-out is exit 2 (machinery), never a violation. Differences that need an exact tie "
